@@ -46,6 +46,13 @@ fn main() {
         }
         "replay" => {
             let path = args.get(2).expect("replay file");
+            let prop = std::fs::read_to_string(path)
+                .ok()
+                .and_then(|t| serde_json::from_str::<serde_json::Value>(&t).ok())
+                .and_then(|v| v["property"].as_str().map(|s| s.to_string()))
+                .unwrap_or_else(|| "unknown".into());
+            chess_verif::crash::install(&root, &prop);
+            chess_verif::crash::register(0);
             std::process::exit(props::replay_file(&root, path));
         }
         id => {
@@ -65,6 +72,7 @@ fn main() {
                 scale: std::env::var("VERIF_SCALE").ok().and_then(|v| v.parse::<f64>().ok()).unwrap_or(1.0),
                 root,
             };
+            chess_verif::crash::install(&cfg.root, &cfg.id);
             std::process::exit(props::run(&cfg));
         }
     }
